@@ -43,12 +43,21 @@ ssize_t read_data(zckCtx *zck, char *data, size_t length) {
         set_error(zck, "Unable to read to NULL data pointer");
         return -1;
     }
-    ssize_t read_bytes = read(zck->fd, data, length);
-    if(read_bytes == -1) {
-        set_error(zck, "Error reading data: %s", strerror(errno));
-        return -1;
+    /* read() may return less than was asked for without being at the end of
+     * the file.  Every caller takes a short count for the end of the file, so
+     * keep reading until we have everything or really are at the end */
+    size_t total = 0;
+    while(total < length) {
+        ssize_t read_bytes = read(zck->fd, data + total, length - total);
+        if(read_bytes == -1) {
+            set_error(zck, "Error reading data: %s", strerror(errno));
+            return -1;
+        }
+        if(read_bytes == 0)
+            break;
+        total += read_bytes;
     }
-    return read_bytes;
+    return total;
 }
 
 int write_data(zckCtx *zck, int fd, const char *data, size_t length) {
